@@ -625,6 +625,283 @@ def _tuple_index(sl, flds):
     return i if i in flds else None
 
 
+_FRESH_ARRAYS = ('np.zeros', 'np.ones', 'np.empty', 'np.full', 'np.array', 'np.eye', 'numpy.zeros', 'numpy.ones',
+                 'numpy.empty', 'numpy.full', 'numpy.array', 'np.zeros_like', 'np.ones_like', 'np.empty_like')
+
+
+def _chain_attr_alias(node):
+    """`self.X = x = <fresh array / list / dict>` (x bound nowhere else): x is another name of the object kept in
+    self.X - every use of x, its in-place updates included, is written as self.X"""
+    binds = {}
+    for n in ast.walk(node):
+        if isinstance(n, ast.Name) and isinstance(n.ctx, (ast.Store, ast.Del)):
+            binds.setdefault(n.id, []).append(n)
+    params = {a.arg for a in node.args.posonlyargs + node.args.args + node.args.kwonlyargs}
+    parents = {}
+    for x in ast.walk(node):
+        for ch in ast.iter_child_nodes(x):
+            parents[id(ch)] = x
+    alias = {}
+    for st in ast.walk(node):
+        if not (isinstance(st, ast.Assign) and len(st.targets) == 2):
+            continue
+        names = [t for t in st.targets if isinstance(t, ast.Name)]
+        attrs = [t for t in st.targets if isinstance(t, ast.Attribute) and isinstance(t.value, ast.Name) and t.value.id == 'self']
+        if len(names) != 1 or len(attrs) != 1 or names[0].id in params:
+            continue
+        v = st.value
+        fresh = isinstance(v, (ast.List, ast.Dict)) or (isinstance(v, ast.Call) and (dotted(v.func) or '') in _FRESH_ARRAYS)
+        if not fresh:
+            continue
+        nm = names[0].id
+        # every other binding of the name is an in-place update (x += ..): the object stays the same one
+        others = [b for b in binds.get(nm, []) if b is not names[0]]
+        if any(not (isinstance(parents.get(id(b)), ast.AugAssign) and parents[id(b)].target is b) for b in others):
+            continue
+        if others and isinstance(v, (ast.List, ast.Dict)) is False and not isinstance(v, ast.Call):
+            continue
+        alias[nm] = (st, names[0], attrs[0])
+    if not alias:
+        return
+    for nm, (st, nt, at) in alias.items():
+        st.targets = [at]
+
+    def rec(x):
+        for fld, val in ast.iter_fields(x):
+            if isinstance(val, list):
+                for i_, y in enumerate(val):
+                    if isinstance(y, ast.AST):
+                        val[i_] = fix(y)
+            elif isinstance(val, ast.AST):
+                setattr(x, fld, fix(val))
+
+    def fix(y):
+        if isinstance(y, ast.Name) and y.id in alias:
+            new = _clone(alias[y.id][2])
+            new.ctx = y.ctx.__class__()
+            for z in ast.walk(new):
+                ast.copy_location(z, y)
+            return new
+        rec(y)
+        return y
+    rec(node)
+
+
+def _inplace_attr_alias(node):
+    """`x = self.X` where self.X was given a fresh array earlier in the same function (every store of self.X is such
+    an assignment, all written before) and x is otherwise only updated in place (x += ..): x names the object in
+    self.X - uses and in-place updates are written on self.X"""
+    order = {}
+    for i, n in enumerate(_preorder_nodes(node)):
+        order[id(n)] = i
+    parents = parents_of(node)
+    stores = {}
+    for n in ast.walk(node):
+        if isinstance(n, ast.Attribute) and isinstance(n.ctx, (ast.Store, ast.Del)) and isinstance(n.value, ast.Name) and \
+           n.value.id == 'self':
+            stores.setdefault(n.attr, []).append(n)
+    binds = {}
+    for n in ast.walk(node):
+        if isinstance(n, ast.Name) and isinstance(n.ctx, (ast.Store, ast.Del)):
+            binds.setdefault(n.id, []).append(n)
+    params = {a.arg for a in node.args.posonlyargs + node.args.args + node.args.kwonlyargs}
+    alias = {}
+    for st in ast.walk(node):
+        if not (isinstance(st, ast.Assign) and len(st.targets) == 1 and isinstance(st.targets[0], ast.Name) and
+                isinstance(st.value, ast.Attribute) and isinstance(st.value.value, ast.Name) and st.value.value.id == 'self'):
+            continue
+        nm, attr = st.targets[0].id, st.value.attr
+        if nm in params or attr not in stores:
+            continue
+        fresh = True
+        for a in stores[attr]:
+            pa = parents.get(id(a))
+            if not (isinstance(pa, ast.Assign) and a in pa.targets and isinstance(pa.value, ast.Call) and
+                    (dotted(pa.value.func) or '') in _FRESH_ARRAYS and order[id(pa)] < order[id(st)]):
+                fresh = False
+        others = [b for b in binds.get(nm, []) if b is not st.targets[0]]
+        if not fresh or not others or \
+           any(not (isinstance(parents.get(id(b)), ast.AugAssign) and parents[id(b)].target is b) for b in others):
+            continue
+        alias[nm] = (st, st.value)
+    if not alias:
+        return
+
+    def rec(x):
+        for fld, val in ast.iter_fields(x):
+            if isinstance(val, list):
+                new = []
+                for y in val:
+                    if isinstance(y, ast.Assign) and any(y is a_[0] for a_ in alias.values()):
+                        continue
+                    new.append(fix(y) if isinstance(y, ast.AST) else y)
+                val[:] = new or ([ast.copy_location(ast.Pass(), x)] if fld == 'body' and val else new)
+            elif isinstance(val, ast.AST):
+                setattr(x, fld, fix(val))
+
+    def fix(y):
+        if isinstance(y, ast.Name) and y.id in alias:
+            new = _clone(alias[y.id][1])
+            new.ctx = y.ctx.__class__()
+            for z in ast.walk(new):
+                ast.copy_location(z, y)
+            return new
+        rec(y)
+        return y
+    rec(node)
+
+
+def _preorder_nodes(node):
+    yield node
+    for ch in ast.iter_child_nodes(node):
+        yield from _preorder_nodes(ch)
+
+
+def _scalarise_objects(ctx, node, counter):
+    """`obj = _Cls(a, b)` where _Cls is a private class of the package that only has a constructor (a bundle of
+    values computed once) and obj is only ever read attribute by attribute: the constructor body is written out
+    in place (self.attr -> obj__attr, its locals renamed) and obj.attr reads obj__attr"""
+    classes = ctx.model.classes
+    asg = {}
+    for s in ast.walk(node):
+        if isinstance(s, ast.Name) and isinstance(s.ctx, (ast.Store, ast.Del)):
+            asg.setdefault(s.id, []).append(s)
+    parents = {}
+    for x in ast.walk(node):
+        for ch in ast.iter_child_nodes(x):
+            parents[id(ch)] = x
+    cands = {}
+    for nm, bs in asg.items():
+        if len(bs) != 1:
+            continue
+        st = parents.get(id(bs[0]))
+        if not (isinstance(st, ast.Assign) and len(st.targets) == 1 and st.targets[0] is bs[0]):
+            continue
+        v = st.value
+        if not (isinstance(v, ast.Call) and isinstance(v.func, ast.Name) and v.func.id in classes and v.func.id.startswith('_')):
+            continue
+        ci = classes[v.func.id]
+        if set(ci.methods) != {'__init__'} or ci.setters or [b for b in ci.base_names if b not in (None, 'object')]:
+            continue
+        init = ci.methods['__init__']
+        a = init.node.args
+        if a.vararg or a.kwarg or a.kwonlyargs or any(isinstance(x, ast.Starred) for x in v.args) or \
+           any(k.arg is None for k in v.keywords):
+            continue
+        body = init.body()
+        if any(isinstance(x, (ast.Return, ast.Yield, ast.YieldFrom, ast.Global, ast.Nonlocal, ast.FunctionDef, ast.Lambda))
+               for b in body for x in ast.walk(b)):
+            continue
+        self_name = init.params[0]
+        # self is only used as self.attr
+        bad = False
+        for b in body:
+            for x in ast.walk(b):
+                if isinstance(x, ast.Name) and x.id == self_name:
+                    bad = bad or not isinstance(parents_of(b).get(id(x)), ast.Attribute)
+        if bad:
+            continue
+        params = init.params[1:]
+        bind = {}
+        for p_, arg in zip(params, v.args):
+            bind[p_] = arg
+        for k in v.keywords:
+            bind[k.arg] = k.value
+        for p_, d in init.defaults().items():
+            bind.setdefault(p_, d)
+        if set(bind) != set(params):
+            continue
+        cands[nm] = (st, init, body, self_name, bind)
+    if not cands:
+        return
+    ok = {}
+    for nm, c in cands.items():
+        good = True
+        for n in ast.walk(node):
+            if isinstance(n, ast.Name) and n.id == nm and isinstance(n.ctx, ast.Load):
+                p = parents.get(id(n))
+                if not (isinstance(p, ast.Attribute) and p.value is n and isinstance(p.ctx, ast.Load)):
+                    good = False
+        if good:
+            ok[nm] = c
+    if not ok:
+        return
+
+    def inline(nm, st, init, body, self_name, bind):
+        counter[0] += 1
+        suf = '__o%d' % counter[0]
+        local = {x.id for b in body for x in ast.walk(b) if isinstance(x, ast.Name) and isinstance(x.ctx, ast.Store)}
+        pre = []
+        sub = {}
+        for p_, arg in bind.items():
+            if isinstance(arg, (ast.Name, ast.Constant)) or (isinstance(arg, ast.Attribute) and dotted(arg)):
+                if p_ in local:
+                    a_ = ast.Assign(targets=[ast.Name(id=p_ + suf, ctx=ast.Store())], value=_clone(arg))
+                    pre.append(ast.copy_location(a_, st))
+                    sub[p_] = ast.Name(id=p_ + suf, ctx=ast.Load())
+                else:
+                    sub[p_] = arg
+            else:
+                a_ = ast.Assign(targets=[ast.Name(id=p_ + suf, ctx=ast.Store())], value=_clone(arg))
+                pre.append(ast.copy_location(a_, st))
+                sub[p_] = ast.Name(id=p_ + suf, ctx=ast.Load())
+
+        def rw(y):
+            if isinstance(y, ast.Attribute) and isinstance(y.value, ast.Name) and y.value.id == self_name:
+                new = ast.Name(id='%s__%s' % (nm, y.attr), ctx=y.ctx.__class__())
+                return ast.copy_location(new, y)
+            if isinstance(y, ast.Name):
+                if y.id in sub and isinstance(y.ctx, ast.Load):
+                    v_ = _clone(sub[y.id])
+                    for z in ast.walk(v_):
+                        ast.copy_location(z, y)
+                    return v_
+                if y.id in local or y.id in sub:
+                    return ast.copy_location(ast.Name(id=y.id + suf, ctx=y.ctx.__class__()), y)
+                return y
+            for fld, val in ast.iter_fields(y):
+                if isinstance(val, list):
+                    for i_, z in enumerate(val):
+                        if isinstance(z, ast.AST):
+                            val[i_] = rw(z)
+                elif isinstance(val, ast.AST):
+                    setattr(y, fld, rw(val))
+            return y
+        out = pre + [rw(_clone(b)) for b in body]
+        for o in out:
+            ast.fix_missing_locations(o)
+        return out
+
+    def rec(x):
+        for fld, val in ast.iter_fields(x):
+            if isinstance(val, list):
+                new = []
+                for y in val:
+                    if isinstance(y, ast.Assign) and len(y.targets) == 1 and isinstance(y.targets[0], ast.Name) and \
+                       y.targets[0].id in ok and y is ok[y.targets[0].id][0]:
+                        new += inline(y.targets[0].id, *ok[y.targets[0].id])
+                        continue
+                    new.append(fix(y) if isinstance(y, ast.AST) else y)
+                val[:] = new
+            elif isinstance(val, ast.AST):
+                setattr(x, fld, fix(val))
+
+    def fix(y):
+        if isinstance(y, ast.Attribute) and isinstance(y.value, ast.Name) and y.value.id in ok and isinstance(y.ctx, ast.Load):
+            return ast.copy_location(ast.Name(id='%s__%s' % (y.value.id, y.attr), ctx=ast.Load()), y)
+        rec(y)
+        return y
+    rec(node)
+
+
+def parents_of(root):
+    out = {}
+    for x in ast.walk(root):
+        for ch in ast.iter_child_nodes(x):
+            out[id(ch)] = x
+    return out
+
+
 def _scalarise_records(ctx, node):
     """a local record (NamedTuple / dataclass creation, assigned once, perhaps handed on through `x = __rN`) that
     is only ever read field by field is a handful of scalars: REC.field -> REC__field"""
@@ -815,6 +1092,9 @@ def flatten(ctx, func, depth=3):
         doc, body = body[:1], body[1:]
     node.body = doc + fl.block(body, [func.qual])
     _scalarise_tables(node)
+    _chain_attr_alias(node)
+    _inplace_attr_alias(node)
+    _scalarise_objects(ctx, node, fl.counter)
     _scalarise_records(ctx, node)
     _propagate_self_aliases(node)
     _fold_const_getattr(node)
